@@ -173,7 +173,7 @@ def gen_family(rng, tier, out):
 def generate(rng, tier):
     cases = targeted()
     streams = ["targeted"] * len(cases)
-    n = 300 if tier == "quick" else 5000
+    n = 800 if tier == "quick" else 6000
     fam = []
     for _ in range(n):
         gen_family(rng, tier, fam)
